@@ -38,12 +38,12 @@ def step (t : List String) : String :=
     | some h, some w, some dx, some wvl, some ts, some vals =>
       if vals.length ≠ h * w then "bad-op" else hexOf (zygoFile table writerSets ⟨h, w, dx, wvl, ts⟩ vals)
     | _, _, _, _, _, _ => "bad-op"
-  | ["zread", hex] => fmtRead (zygoRead (unhex hex))
-  | "ztrunc" :: hex :: ks =>
+  | ["zread", p, hex] => fmtRead (zygoRead (p == "1") (unhex hex))
+  | "ztrunc" :: p :: hex :: ks =>
     match parseAll? parseNat? ks with
     | some ks =>
       let f := unhex hex
-      " | ".intercalate (ks.map fun k => fmtRead (zygoRead (f.take k)))
+      " | ".intercalate (ks.map fun k => fmtRead (zygoRead (p == "1") (f.take k)))
     | none => "bad-op"
   | ["zmeta", hex] =>
     let f := unhex hex
@@ -60,20 +60,20 @@ def step (t : List String) : String :=
       | some r => s!"{r.name} {r.lo} {r.hi} {r.size} {if r.isPad then 1 else 0} {hexOf (r.packDflt r.dflt)}"
       | none => "bad-op"
     | none => "bad-op"
-  | "cvw" :: h :: w :: vals =>
+  | "cvw" :: f4 :: h :: w :: vals =>
     match h.toNat?, w.toNat?, parseAll? parseFloatBits? vals with
     | some h, some w, some vals =>
       if vals.length ≠ h * w then "bad-op" else
-      let (scale, counts) := cvWriteF h w vals
+      let (scale, counts) := cvWriteF h w vals (if f4 == "1" then 1.1920928955078125e-07 else 2.220446049250313e-16)
       let (t1, t2) := cvHeaderDims h w
       s!"{fmtFloat scale} {t1} {t2} {cvLines (h * w)} " ++ fmtList toString counts
     | _, _, _ => "bad-op"
-  | "cvr" :: t1 :: t2 :: wvl :: ssz :: nda :: ints =>
+  | "cvr" :: p :: t1 :: t2 :: wvl :: ssz :: nda :: ends :: ints =>
     match t1.toNat?, t2.toNat?, parseFloatBits? wvl, parseFloatBits? ssz, nda.toInt?, parseAll? parseInt? ints with
     | some t1, some t2, some wvl, some ssz, some nda, some ints =>
-      match cvReadF t1 t2 wvl ssz nda ints with
+      match cvReadF (p == "1") t1 t2 wvl ssz nda (ends == "1") ints with
       | none => "none"
-      | some (h, w, vals) => s!"{h} {w} " ++ fmtList fmtFloat vals
+      | some (h, w, vals, warned) => s!"{h} {w} {if warned then 1 else 0} " ++ fmtList fmtFloat vals
     | _, _, _, _, _, _ => "bad-op"
   | _ => "bad-op"
 
